@@ -95,6 +95,24 @@ func main() {
 		debugMeta(p, *symM, *symForks)
 		return
 	}
+	if os.Getenv("PRISMCHECK_LISTMETA") != "" {
+		p, err := Load(*repo, "")
+		if err != nil {
+			fmt.Println(err)
+			os.Exit(2)
+		}
+		var ns []string
+		for _, f := range p.SrcFuncs() {
+			if f.Parent() == nil && metaPkg(f) {
+				ns = append(ns, shortFn(f))
+			}
+		}
+		sort.Strings(ns)
+		for _, n := range ns {
+			fmt.Printf("\t%q: true,\n", n)
+		}
+		return
+	}
 	if *symW != "" {
 		p, err := Load(*repo, "")
 		if err != nil {
@@ -176,6 +194,7 @@ func main() {
 				return r.Finish(opts)
 			}
 			r.prog = p
+			scopeProg, metaReach = p, nil
 			for _, pk := range p.Prism {
 				r.Packages[pk.PkgPath] = true
 			}
